@@ -13,6 +13,23 @@ COMMON_NOTE = ('Trusted: Coq 8.16.1 kernel (full .vo builds, vm_compute for fini
                'harness and oracles. Axioms: see Print Assumptions output copied into the evidence file.')
 
 CLAIMED = {
+    'C19': dict(
+        text='Theorems C19_prints_leave_no_trace (Proofs/StateIndep.v over the dispatch refinement: for every class '
+             'lattice and any two histories with the same registrations - prints, is_registered queries and promotions '
+             'of lazily registered printers interleaved arbitrarily - the printer chosen for a class is the same), '
+             'C19_shared_constants_immutable / C19_only_normalize_makes_mutable_cells (over the guards a translator '
+             'regenerates from doctypes.py: a FlatChoice built by the public constructor - LINE, SOFTLINE, every '
+             'flat_choice of the printers - is never modified by any sequence of reads; only the private copy '
+             'normalize() makes per layout call mutates itself), C19_model_is_a_function. Non-mutation of the inputs '
+             'and independence from the call history are VALIDATED, not proved: every corpus value (model universe, '
+             'standard-library types, lazily registered classes, struct sequences) is printed first in its own fresh '
+             'interpreter and then under long permuted / repeated histories in one interpreter, outputs compared, and '
+             'a canonical deep snapshot of the value compared before/after every print; the stateless model is '
+             'compared with pformat after the history.',
+        design='5.6 C19', technique='Coq proofs (dispatch state independence by refinement; lazy-cell immutability over translated guards) + history/fresh-interpreter differential',
+        note=COMMON_NOTE + ' The struct-sequence field-name cache stores a function of the class (keyword names of '
+             'repr); modelled as such. Memory addresses (id()) are outside the model: the fixed finding '
+             'C19-sort-by-address was found by the fresh-interpreter comparison.'),
     'C16': dict(
         text='Theorems C16_strip (for EVERY sdoc stream, style and colour strings, dropping the styling chunks of what '
              'colored_render_to_stream writes gives exactly default_render: induction over the line structure), '
